@@ -1320,7 +1320,17 @@ pub(super) fn check_retx(k: &mut Kernel) {
         if tcb.egress_since_ack < threshold {
             continue;
         }
-        if tcb.retx_attempts >= max {
+        // A data segment is emitted once and retransmitted `max` times
+        // before the connection is given up. A zero-window probe has no
+        // such first emission: the first probe only leaves one threshold
+        // after the window closed, so probing gets one attempt more to
+        // grant its first probe the same round trip.
+        let limit = if zero_window_blocked(tcb) {
+            max + 1
+        } else {
+            max
+        };
+        if tcb.retx_attempts >= limit {
             abort.push(fd);
             continue;
         }
